@@ -72,6 +72,9 @@ fn jv(n: u32) -> Value {
 /// Model of canonicalization of one value (RFC 8785 tree form).
 fn canon_tree(v: &RefValue) -> RefValue {
 	match v {
+		// plain integers below 2^53 are their own canonical form (ECMAScript prints them without exponent);
+		// everything else goes through the exact-arithmetic reference
+		RefValue::Num(s) if s.len() <= 15 && s.bytes().all(|b| b.is_ascii_digit()) && (s.len() == 1 || !s.starts_with('0')) => v.clone(),
 		RefValue::Num(s) => RefValue::Num(crate::refcanon::canonical_number(s).unwrap_or_else(|| s.clone())),
 		RefValue::Arr(a) => RefValue::Arr(a.iter().map(canon_tree).collect()),
 		RefValue::Obj(o) => {
